@@ -1,6 +1,7 @@
 package gen
 
 import (
+	"unicode/utf16"
 	"fmt"
 	"strconv"
 	"strings"
@@ -36,6 +37,12 @@ func QuoteSoy(s string, esc int) string {
 			fmt.Fprintf(&b, `\u%04X`, r)
 		case esc == 1 && r < 0x10000 && !(r == ' ' || r >= '0' && r <= '9' || r >= 'a' && r <= 'z' || r >= 'A' && r <= 'Z'):
 			fmt.Fprintf(&b, `\u%04X`, r)
+		case esc == 1 && r >= 0x10000:
+			// (a character outside the BMP as the pair of escapes of its two UTF-16 units)
+			r1, r2 := utf16.EncodeRune(r)
+			fmt.Fprintf(&b, `\u%04X\u%04X`, r1, r2)
+		case esc == 2 && r == '"':
+			b.WriteString(`\"`) // (the double quote may be escaped too)
 		default:
 			b.WriteRune(r)
 		}
@@ -201,9 +208,30 @@ func tag(inner string) string {
 }
 
 // AttrQuote writes a double-quoted attribute value.
+// AttrQuote writes an attribute value: the text as it is between double quotes, a double quote inside
+// it written \" (the one thing the value cannot hold as it is). A backslash is a backslash: the value of
+// data="..." is an expression, whose string literals have escapes of their own.
+// attrExpr is the text of an expression for use inside an attribute value: an escaped double quote in a
+// string literal is written without its backslash there (the attribute's own quoting adds one).
+func attrExpr(e *Expr) string {
+	t := PrintExpr(e)
+	var b strings.Builder
+	for i := 0; i < len(t); i++ {
+		if t[i] == '\\' && i+1 < len(t) {
+			if t[i+1] != '"' {
+				b.WriteByte(t[i])
+			}
+			b.WriteByte(t[i+1])
+			i++
+			continue
+		}
+		b.WriteByte(t[i])
+	}
+	return b.String()
+}
+
 func AttrQuote(s string) string {
-	r := strings.NewReplacer(`\`, `\\`, `"`, `\"`, "\n", `\n`, "\r", `\r`)
-	return `"` + r.Replace(s) + `"`
+	return `"` + strings.ReplaceAll(s, `"`, `\"`) + `"`
 }
 
 func printDirectives(ds []Directive) string { return (&printer{}).directives(ds, false) }
@@ -467,7 +495,7 @@ func (p *printer) cmd(c *Cmd) {
 		if c.Call.DataAll {
 			dataAttr = `data="all"`
 		} else if c.Call.Data != nil {
-			dataAttr = "data=" + AttrQuote(PrintExpr(c.Call.Data))
+			dataAttr = "data=" + AttrQuote(attrExpr(c.Call.Data))
 		}
 		inner := "call" + name + p.attrs(strings.TrimSpace(nameAttr), dataAttr)
 		if len(c.Call.Params) == 0 {
@@ -492,7 +520,7 @@ func (p *printer) cmd(c *Cmd) {
 			case pr.Style == 0:
 				b.WriteString(tag("param" + p.sp() + pr.Key + ":" + p.sp() + PrintExpr(pr.Value) + p.sp() + "/"))
 			default:
-				b.WriteString(tag("param" + p.attrs("key="+AttrQuote(pr.Key), "value="+AttrQuote(PrintExpr(pr.Value))) + p.sp() + "/"))
+				b.WriteString(tag("param" + p.attrs("key="+AttrQuote(pr.Key), "value="+AttrQuote(attrExpr(pr.Value))) + p.sp() + "/"))
 			}
 			b.WriteString(c.Gap)
 		}
@@ -557,13 +585,23 @@ func PrintFile(f *File) string {
 		if !t.Header || t.BothDecls {
 			b.WriteString("/**" + nl)
 			for _, pd := range t.Params {
+				// (a tab is white space too)
+				sep := " "
+				if (len(pd.Name)+len(t.Name))%5 == 2 {
+					sep = "\t"
+				}
 				if pd.Optional {
-					b.WriteString(" * @param? " + pd.Name + nl)
+					b.WriteString(" * @param?" + sep + pd.Name + nl)
 				} else {
-					b.WriteString(" * @param " + pd.Name + nl)
+					b.WriteString(" * @param" + sep + pd.Name + nl)
 				}
 			}
-			b.WriteString(" */" + nl)
+			// (the template tag may follow its soydoc on the same line)
+			if (len(t.Name)*3+len(t.Params))%7 == 4 {
+				b.WriteString(" */ ")
+			} else {
+				b.WriteString(" */" + nl)
+			}
 		}
 		b.WriteString("{template ." + t.Name)
 		ae, priv := "", ""
@@ -579,6 +617,12 @@ func PrintFile(f *File) string {
 		b.WriteString("}")
 		if t.Header || t.BothDecls {
 			for _, pd := range t.Params {
+				// (blanks between the template tag and a header param, and between header params)
+				if (len(pd.Name)+len(t.Name)*2)%6 == 1 {
+					b.WriteString(" ")
+				} else if (len(pd.Name)+len(t.Name)*2)%6 == 2 {
+					b.WriteString(nl + "  ")
+				}
 				// (the declared type is not interpreted; its spelling varies with the name)
 				types := []string{"?", "any", "string", "list<string>", "map<string, int>", "[a: int, b: string]", "bool|null", "?  "}
 				ty := types[(len(pd.Name)*7+int(pd.Name[0]))%len(types)]
